@@ -216,6 +216,17 @@ m("C16", "compression/zstd.py", "                    if not decompressor.eof:\n 
 m("C17", "data/codec.py", "                    data = decoder.decode(b'', final=True)\n                    observer.on_next(data)", "                    pass", "fire", ["CD-1"])
 m("C17", "data/codec.py", "def decode(encoding='utf8', incremental=True):", "def decode(encoding='utf8', incremental=False):", "fire", ["CD-1"])
 # ---------------------------------------------------------------- C18
+m('C18', 'container/csv.py', "    if type_repr in ['int', int]:\n        return parse_int", "    if type_repr in ['int', int]:\n        return parse_decimal", 'fire', ['CS-1', 'CS-3'], 'hand mutant: int columns parsed as float')
+m('C18', 'container/csv.py', "    if type_repr in ['float', float]:\n        return parse_decimal", "    if type_repr in ['float', float]:\n        return parse_int", 'fire', ['CS-1', 'CS-3'], 'hand mutant: float columns parsed as int')
+m('C18', 'container/csv.py', "    elif type_repr in ['str', str]:\n        return lambda i: i", "    elif type_repr in ['str', str]:\n        return lambda i: i.strip()", 'fire', ['CS-1', 'CS-3'], 'hand mutant: str fields stripped')
+m('C18', 'container/csv.py', '    return int(i)', '    return int(float(i))', 'fire', ['CS-1', 'CS-3'], 'hand mutant: int via float')
+m('C18', 'container/csv.py', '                        f = f.replace(escapechar, f\'{escapechar}{escapechar}\')\n                        f = f.replace(\'"\', f\'{escapechar}"\')', '                        f = f.replace(\'"\', f\'{escapechar}"\')\n                        f = f.replace(escapechar, f\'{escapechar}{escapechar}\')', 'fire', ['CS-1', 'CS-3'], 'hand mutant: writer: quotes escaped before escapes doubled')
+m('C18', 'container/csv.py', '                    i = i.replace(f\'{escapechar}{escapechar}\', escapechar)\n                    i = i.replace(f\'{escapechar}"\', \'"\')', '                    i = i.replace(f\'{escapechar}"\', \'"\')\n                    i = i.replace(f\'{escapechar}{escapechar}\', escapechar)', 'silent')
+m('C18', 'container/csv.py', '                if first is True and header is True:\n                    first = False', '                if first is True and header is True:\n                    pass', 'fire', ['CS-1', 'CS-3'], 'hand mutant: header repeated on every row')
+m('C18', 'container/csv.py', "                    elif f is None:\n                        f = ''", "                    elif f is None:\n                        f = 'None'", 'fire', ['CS-1', 'CS-3'], 'hand mutant: None written as text')
+m('C18', 'container/csv.py', '                        f = \'"{}"\'.format(f)', '                        f = \'"{}"\'.format(f) if separator in f or \'"\' in f else f', 'fire', ['CS-1', 'CS-3'], 'hand mutant: quote only when needed (leading blanks / empty strings then differ from None)')
+m('C18', 'container/csv.py', '                    agg.append(\'"\')\n                    merged_parts.append(separator.join(agg))\n                    agg = None', '                    agg.append(\'"\')\n                    merged_parts.append(separator.join(agg))', 'fire', ['CS-1', 'CS-3'], 'hand mutant: no reset after close (lone quote)')
+m('C18', 'container/csv.py', '                agg.append(t)\n                merged_parts.append(separator.join(agg))\n                agg = None', '                agg.append(t)\n                merged_parts.append(separator.join(agg))', 'fire', ['CS-1', 'CS-3'], 'hand mutant: no reset after close')
 m("C18", "container/csv.py", "    body = t[:-1]\n    return (len(body) - len(body.rstrip(escapechar))) % 2 == 0", "    return len(t) < 2 or t[-2] != escapechar", "fire", ["CS-3"], "the merger defect repaired by 8fba40d, re-introduced (one escape character looked at instead of the parity of the run)")
 m("C18", "container/csv.py", "    return (len(body) - len(body.rstrip(escapechar))) % 2 == 0", "    return (len(body) - len(body.rstrip(escapechar))) % 2 == 1", "fire", ["CS-3"], "parity inverted")
 m("C18", "container/csv.py", "    return (len(body) - len(body.rstrip(escapechar))) % 2 == 0", "    return (len(t) - 1 - len(body.rstrip(escapechar))) % 2 != 1", "silent")
